@@ -290,15 +290,15 @@ theorem augLoop_spec (t : ℚ) (D0 : List (GDeme OutEpoch)) (M0 : List GMig) (P0
               have hnot : renameOf t R a = a ∨ renameOf t R a = a.sampledAt t := by
                 unfold renameOf; split_ifs <;> simp
               rcases hnot with h | h
-              · rw [h]; simp
-              · rw [h, sampledAt_ne_base a t a hsd]; simp [h]
+              · simp [h]
+              · simp [h]
             · have ha' : (a == sd) = false := by simpa using ha
               simp only [ha', Bool.false_eq_true, if_false]
               have hnot : renameOf t R a = a ∨ renameOf t R a = a.sampledAt t := by
                 unfold renameOf; split_ifs <;> simp
               rcases hnot with h | h
-              · rw [h, ha']; simp
-              · rw [h, sampledAt_ne_base a t sd hsd]; simp)
+              · simp [h, ha']
+              · simp [h, sampledAt_ne_base a t sd hsd])
         have e1 : isOlder (sd, st) = false := by simp [isOlder, h1]
         have e2 : isRenamed t (sd, st) = true := by simp [isRenamed, h1, h2]
         simp only [List.filter_cons, e1, e2, if_true, Bool.false_eq_true, if_false, List.map_cons]
@@ -313,5 +313,234 @@ theorem augLoop_spec (t : ℚ) (D0 : List (GDeme OutEpoch)) (M0 : List GMig) (P0
         have e2 : isRenamed t (sd, st) = false := by simp [isRenamed, h1, h2]
         simp only [List.filter_cons, e1, e2, Bool.false_eq_true, if_false]
         exact this
+
+/-! ### the renamed list of sampled demes -/
+
+/-- the name under which a sample is returned (`st` = sample time minus slice time) -/
+def nameOfSample (t : ℚ) (p : DName × ℚ) : DName := if p.2 > 0 ∨ t > 0 then p.1.sampledAt (p.2 + t) else p.1
+
+theorem augStep_sampled (t : ℚ) (s : AugSt) (k : ℕ) (sd : DName) (st : ℚ) :
+    (augStep t s k sd st).sampled = if st > 0 ∨ t > 0 then s.sampled.set k (sd.sampledAt (st + t)) else s.sampled := by
+  by_cases h1 : st > 0
+  · rw [augStep_branch t s k sd st h1]; simp [h1]
+  · by_cases h2 : t > 0
+    · rw [augStep_rename t s k sd st h1 h2]; simp [h2]
+    · rw [augStep_none t s k sd st h1 h2]; simp [h1, h2]
+
+theorem augLoop_sampled (t : ℚ) (S : List (DName × ℚ)) :
+    ∀ (pre : List DName) (s : AugSt), s.sampled = pre ++ S.map (·.1) →
+      (augLoop t s pre.length S).sampled = pre ++ S.map (nameOfSample t) := by
+  induction S with
+  | nil => intro pre s hs; simpa [augLoop] using hs
+  | cons p rest ih =>
+    intro pre s hs
+    obtain ⟨sd, st⟩ := p
+    simp only [augLoop]
+    have h1 : (augStep t s pre.length sd st).sampled = (pre ++ [nameOfSample t (sd, st)]) ++ rest.map (·.1) := by
+      rw [augStep_sampled, hs]
+      unfold nameOfSample
+      split_ifs <;> simp
+    have := ih (pre ++ [nameOfSample t (sd, st)]) (augStep t s pre.length sd st) h1
+    simp only [List.length_append, List.length_cons, List.length_nil, zero_add] at this
+    rw [this]
+    simp
+
+/-! ### `min` -/
+
+theorem foldl_min_le (xs : List ℚ) : ∀ init : ℚ,
+    xs.foldl (fun a b => if b < a then b else a) init ≤ init ∧ ∀ y ∈ xs, xs.foldl (fun a b => if b < a then b else a) init ≤ y := by
+  induction xs with
+  | nil => intro init; simp
+  | cons x rest ih =>
+    intro init
+    simp only [List.foldl_cons]
+    have h := ih (if x < init then x else init)
+    refine ⟨?_, ?_⟩
+    · refine le_trans h.1 ?_
+      split_ifs with hx
+      · exact le_of_lt hx
+      · exact le_refl _
+    · intro y hy
+      rcases List.mem_cons.1 hy with rfl | hy'
+      · refine le_trans h.1 ?_
+        split_ifs with hx
+        · exact le_refl _
+        · exact not_lt.1 hx
+      · exact h.2 y hy'
+
+theorem listMin_le (l : List ℚ) (x : ℚ) (hx : x ∈ l) : listMin l ≤ x := by
+  cases l with
+  | nil => cases hx
+  | cons a rest =>
+    unfold listMin
+    rcases List.mem_cons.1 hx with rfl | h
+    · exact (foldl_min_le rest _).1
+    · exact (foldl_min_le rest a).2 x h
+
+/-! ### `_augment_with_ancient_samples` in closed form -/
+
+theorem augment_spec (g : Graph InEpoch) (sampled : List DName) (times : List ℚ) (hlen : sampled.length = times.length)
+    (hbase : ∀ a ∈ sampled, a.stamps = []) :
+    (augment g sampled times).demes
+        = (sliceGraph (listMin times) g).demes.map (GDeme.rename (renameOf (listMin times)
+            (((sampled.zip times).filter fun p => !decide (p.2 - listMin times > 0) && decide (listMin times > 0)).map (·.1))))
+          ++ ((sampled.zip times).filter fun p => decide (p.2 - listMin times > 0)).map (branchDeme (renameOf (listMin times)
+            (((sampled.zip times).filter fun p => !decide (p.2 - listMin times > 0) && decide (listMin times > 0)).map (·.1))) (listMin times))
+    ∧ (augment g sampled times).migs
+        = (sliceGraph (listMin times) g).migs.map (GMig.rename (renameOf (listMin times)
+            (((sampled.zip times).filter fun p => !decide (p.2 - listMin times > 0) && decide (listMin times > 0)).map (·.1))))
+    ∧ (augment g sampled times).pulses
+        = (sliceGraph (listMin times) g).pulses.map (GPulse.rename (renameOf (listMin times)
+            (((sampled.zip times).filter fun p => !decide (p.2 - listMin times > 0) && decide (listMin times > 0)).map (·.1))))
+    ∧ (augment g sampled times).frozen = ((sampled.zip times).filter fun p => decide (p.2 - listMin times > 0)).map (fun p => p.1.sampledAt p.2)
+    ∧ (augment g sampled times).sampled
+        = (sampled.zip times).map (fun p => if p.2 - listMin times > 0 ∨ listMin times > 0 then p.1.sampledAt p.2 else p.1) := by
+  set t := listMin times with ht
+  -- the list the loop runs over
+  have hzip : sampled.zip (times.map fun st => st - t) = (sampled.zip times).map (fun p => (p.1, p.2 - t)) := by
+    rw [List.zip_map_right]
+    apply List.map_congr_left
+    intro p _
+    rfl
+  have hS : ∀ p ∈ (sampled.zip times).map (fun p => (p.1, p.2 - t)), p.1.stamps = [] ∧ 0 ≤ p.2 := by
+    intro p hp
+    obtain ⟨q, hq, rfl⟩ := List.mem_map.1 hp
+    have h1 := (List.of_mem_zip hq).1
+    have h2 := (List.of_mem_zip hq).2
+    exact ⟨hbase _ h1, sub_nonneg.2 (listMin_le times _ h2)⟩
+  have hmain := augLoop_spec t (sliceGraph t g).demes (sliceGraph t g).migs (sliceGraph t g).pulses _ hS [] []
+    { demes := (sliceGraph t g).demes, migs := (sliceGraph t g).migs, pulses := (sliceGraph t g).pulses, sampled := sampled, frozen := [], renamed := [] }
+    0 (by simp)
+    (by
+      have : (renameOf t []) = fun a => a := by funext a; simp [renameOf]
+      simp only [this, List.map_nil, List.append_nil]
+      conv_lhs => rw [← List.map_id (sliceGraph t g).demes]
+      apply List.map_congr_left
+      intro d _
+      simp [GDeme.rename])
+    (by
+      have : (renameOf t []) = fun a => a := by funext a; simp [renameOf]
+      simp only [this]
+      conv_lhs => rw [← List.map_id (sliceGraph t g).migs]
+      apply List.map_congr_left
+      intro d _
+      simp [GMig.rename])
+    (by
+      have : (renameOf t []) = fun a => a := by funext a; simp [renameOf]
+      simp only [this]
+      conv_lhs => rw [← List.map_id (sliceGraph t g).pulses]
+      apply List.map_congr_left
+      intro d _
+      simp [GPulse.rename])
+    (by intro a; simp [dictGet, renameOf])
+  have hsmp := augLoop_sampled t ((sampled.zip times).map (fun p => (p.1, p.2 - t))) []
+    { demes := (sliceGraph t g).demes, migs := (sliceGraph t g).migs, pulses := (sliceGraph t g).pulses, sampled := sampled, frozen := [], renamed := [] }
+    (by
+      simp only [List.nil_append, List.map_map, Function.comp_def]
+      exact (List.map_fst_zip (le_of_eq hlen)).symm)
+  have haug : augment g sampled times = augLoop t
+      { demes := (sliceGraph t g).demes, migs := (sliceGraph t g).migs, pulses := (sliceGraph t g).pulses, sampled := sampled, frozen := [], renamed := [] }
+      0 ((sampled.zip times).map (fun p => (p.1, p.2 - t))) := by
+    unfold augment
+    simp only [← ht]
+    rw [hzip]
+  have hfR : (((sampled.zip times).map (fun p => (p.1, p.2 - t))).filter (isRenamed t)).map (·.1)
+      = ((sampled.zip times).filter fun p => !decide (p.2 - t > 0) && decide (t > 0)).map (·.1) := by
+    rw [List.filter_map, List.map_map]
+    rfl
+  have hfB : ((sampled.zip times).map (fun p => (p.1, p.2 - t))).filter isOlder
+      = ((sampled.zip times).filter fun p => decide (p.2 - t > 0)).map (fun p => (p.1, p.2 - t)) := by
+    rw [List.filter_map]
+    rfl
+  have hbr : ∀ (ρ : DName → DName) (p : DName × ℚ), brOf ρ t (p.1, p.2 - t) = branchDeme ρ t p := by
+    intro ρ p
+    simp [brOf, branchDeme]
+  rw [haug]
+  simp only [List.nil_append, hfR, hfB, List.map_map, Function.comp_def, hbr] at hmain
+  refine ⟨hmain.1, hmain.2.1, hmain.2.2.1, ?_, ?_⟩
+  · rw [hmain.2.2.2]
+    simp
+  · have := hsmp
+    simp only [List.length_nil, List.nil_append, List.map_map, Function.comp_def, nameOfSample, sub_add_cancel] at this
+    exact this
+
+/-! ### the order of the samples -/
+
+theorem foldl_min_mem (xs : List ℚ) : ∀ init : ℚ,
+    xs.foldl (fun a b => if b < a then b else a) init = init ∨ xs.foldl (fun a b => if b < a then b else a) init ∈ xs := by
+  induction xs with
+  | nil => intro init; exact Or.inl rfl
+  | cons x rest ih =>
+    intro init
+    simp only [List.foldl_cons]
+    rcases ih (if x < init then x else init) with h | h
+    · rw [h]
+      split_ifs
+      · exact Or.inr List.mem_cons_self
+      · exact Or.inl rfl
+    · exact Or.inr (List.mem_cons_of_mem _ h)
+
+theorem listMin_mem (l : List ℚ) (h : l ≠ []) : listMin l ∈ l := by
+  cases l with
+  | nil => exact absurd rfl h
+  | cons a rest =>
+    show rest.foldl (fun a b => if b < a then b else a) a ∈ a :: rest
+    rcases foldl_min_mem rest a with h1 | h1
+    · rw [h1]; exact List.mem_cons_self
+    · exact List.mem_cons_of_mem _ h1
+
+theorem listMin_perm (l l' : List ℚ) (h : l'.Perm l) : listMin l' = listMin l := by
+  by_cases hl : l = []
+  · subst hl
+    rw [List.Perm.eq_nil h]
+  · have hl' : l' ≠ [] := fun h' => hl (by rw [h'] at h; exact List.Perm.eq_nil h.symm)
+    apply le_antisymm
+    · exact listMin_le l' _ (h.mem_iff.2 (listMin_mem l hl))
+    · exact listMin_le l _ (h.mem_iff.1 (listMin_mem l' hl'))
+
+theorem renameOf_perm (t : ℚ) (R R' : List DName) (h : R'.Perm R) : renameOf t R' = renameOf t R := by
+  funext a
+  unfold renameOf
+  have : R'.contains a = R.contains a := by
+    rw [Bool.eq_iff_iff]
+    simp only [List.contains_iff_mem]
+    exact h.mem_iff
+  rw [this]
+
+/-- **The order in which the samples are listed** does not matter for the augmented graph: the sliced and renamed part, the migrations and
+    the pulses are identical, the frozen branches (and the frozen list) are listed in the order of the samples. -/
+theorem augment_perm (g : Graph InEpoch) (sampled sampled' : List DName) (times times' : List ℚ)
+    (hlen : sampled.length = times.length) (hlen' : sampled'.length = times'.length)
+    (hbase : ∀ a ∈ sampled, a.stamps = []) (hperm : (sampled'.zip times').Perm (sampled.zip times)) :
+    (augment g sampled' times').demes.Perm (augment g sampled times).demes
+    ∧ (augment g sampled' times').migs = (augment g sampled times).migs
+    ∧ (augment g sampled' times').pulses = (augment g sampled times).pulses
+    ∧ (augment g sampled' times').frozen.Perm (augment g sampled times).frozen
+    ∧ (augment g sampled' times').demes.take (sliceGraph (listMin times) g).demes.length
+        = (augment g sampled times).demes.take (sliceGraph (listMin times) g).demes.length := by
+  have hs : sampled'.Perm sampled := by
+    have := hperm.map Prod.fst
+    rwa [List.map_fst_zip (le_of_eq hlen'), List.map_fst_zip (le_of_eq hlen)] at this
+  have ht : times'.Perm times := by
+    have := hperm.map Prod.snd
+    rwa [List.map_snd_zip (le_of_eq hlen'.symm), List.map_snd_zip (le_of_eq hlen.symm)] at this
+  have hbase' : ∀ a ∈ sampled', a.stamps = [] := fun a ha => hbase a (hs.mem_iff.1 ha)
+  obtain ⟨Y1, Y2, Y3, Y4, _⟩ := augment_spec g sampled' times' hlen' hbase'
+  obtain ⟨G1, G2, G3, G4, _⟩ := augment_spec g sampled times hlen hbase
+  have hmin := listMin_perm times times' ht
+  rw [hmin] at Y1 Y2 Y3 Y4
+  have hR := renameOf_perm (listMin times) _ _
+    ((hperm.filter fun p => !decide (p.2 - listMin times > 0) && decide (listMin times > 0)).map (·.1))
+  rw [hR] at Y1 Y2 Y3
+  have hB := hperm.filter fun p => decide (p.2 - listMin times > 0)
+  refine ⟨?_, ?_, ?_, ?_, ?_⟩
+  · rw [Y1, G1]
+    exact List.Perm.append_left _ (hB.map _)
+  · rw [Y2, G2]
+  · rw [Y3, G3]
+  · rw [Y4, G4]
+    exact hB.map _
+  · rw [Y1, G1]
+    simp [List.take_append_of_le_length]
 
 end DadiVerif.DemesConv
